@@ -325,6 +325,7 @@ def run(ctx: common.Run):
     check_rules(ctx, cirq)
     check_symbolized_merge(ctx, cirq)
     check_dd(ctx, cirq)
+    check_idle_gauge(ctx, cirq)
     check_gauges(ctx, cirq)
     check_qudit_passes(ctx, cirq)
     n = 40 if ctx.tier == 'quick' else 600
@@ -566,6 +567,66 @@ def check_dd(ctx, cirq):
             ctx.report_witness('rewrite:add_dynamical_decoupling', 'dynamical decoupling changes the unitary of the circuit (up to global phase)', dict(rep, impl_out=[repr(out)[:2500]], spec_out=['same unitary']))
         if circuit != before:
             ctx.report_witness('mutated-input:add_dynamical_decoupling', 'the transformer modified its argument', dict(rep, impl_out=[repr(circuit)[:1500]], spec_out=[repr(before)[:1500]]))
+
+
+def check_idle_gauge(ctx, cirq):
+    """IdleMomentsGauge: a gate at the start of an idle window and its inverse at the end (merged into neighbouring single-qubit gates when
+    possible) next to unitary gates, measurements and channels: the unitary (or the record distribution) of the circuit does not change"""
+    from cirq.transformers.gauge_compiling import IdleMomentsGauge
+
+    rng = ctx.substream('idle-gauge')
+    n = 25 if ctx.tier == 'quick' else 400
+    for it in range(n):
+        qs = cirq.LineQubit.range(rng.choice([2, 3]))
+        measured = rng.random() < 0.5
+        moments, nk = [], 0
+        for m in range(rng.randint(3, 7)):
+            ops, busy = [], set()
+            if rng.random() < 0.2:
+                a, b = rng.sample(list(qs), 2)
+                ops.append(rng.choice([cirq.CZ, cirq.CNOT, cirq.ISWAP ** 0.5])(a, b))
+                busy |= {a, b}
+            for q in qs:
+                if q in busy or rng.random() < 0.55:
+                    continue
+                r = rng.random()
+                if measured and r < 0.25:
+                    ops.append(cirq.measure(q, key=f'k{nk}'))
+                    nk += 1
+                elif measured and nk and r < 0.35:
+                    ops.append(cirq.X(q).with_classical_controls(f'k{rng.randrange(nk)}'))
+                else:
+                    ops.append(gen.one_qubit_gate(cirq, rng).on(q))
+            moments.append(cirq.Moment(ops))
+        if measured and nk == 0:
+            moments.append(cirq.Moment(cirq.measure(qs[0], key='k0')))
+        circuit = cirq.Circuit(moments)
+        if not circuit.all_qubits():
+            continue
+        qs = sorted(circuit.all_qubits())
+        tr = IdleMomentsGauge(rng.choice([1, 2, 3]), gauges=rng.choice(['pauli', 'clifford', 'inv_clifford']), gauge_beginning=rng.random() < 0.5, gauge_ending=rng.random() < 0.5)
+        rep = {'lines': [{'transformer': repr(tr), 'circuit': repr(circuit)}], 'theorem_or_correspondence': 'Lean reference semantics (C01 / C02)'}
+        before = circuit.copy()
+        try:
+            out = tr(circuit, rng_or_seed=rng.randrange(2**31))
+        except ValueError as e:
+            ctx.count('transformer_error', f'IdleMomentsGauge:ValueError:{str(e)[:30]}')
+            continue
+        except TypeError as e:
+            ctx.report_witness('gauge:IdleMomentsGauge:raises', f'IdleMomentsGauge fails on a valid circuit: {str(e)[:80]}', dict(rep, impl_out=[str(e)[:200]], spec_out=['a circuit with the same meaning']))
+            continue
+        ctx.count('check', 'gauge:IdleMomentsGauge')
+        ctx.case(['idle-gauge', repr(circuit), repr(tr)], True)
+        if measured:
+            want, got = lean_distribution(ctx, cirq, circuit, qs), lean_distribution(ctx, cirq, out, qs)
+            same = dist_close(got, want)
+        else:
+            want, got = lean_unitary(ctx, cirq, circuit, qs), lean_unitary(ctx, cirq, out, qs)
+            same = got.shape == want.shape and phase_close(got, want, 1e-6)
+        if not same:
+            ctx.report_witness('gauge:IdleMomentsGauge', 'the gauged circuit has a different unitary / record distribution', dict(rep, impl_out=[repr(out)[:2500]], spec_out=['same meaning']))
+        if circuit != before:
+            ctx.report_witness('mutated-input:IdleMomentsGauge', 'the transformer modified its argument', dict(rep, impl_out=[repr(circuit)[:1500]], spec_out=[repr(before)[:1500]]))
 
 
 def check_symbolized_merge(ctx, cirq):
